@@ -25,6 +25,7 @@ import (
 	"github.com/anyproto/any-sync/commonspace/headsync/headstorage"
 
 	"github.com/anyproto/any-sync/app/logger"
+	"github.com/anyproto/any-sync/commonspace/object/accountdata"
 	"github.com/anyproto/any-sync/commonspace/object/acl/list"
 	"github.com/anyproto/any-sync/commonspace/object/acl/recordverifier"
 	"github.com/anyproto/any-sync/commonspace/object/tree/objecttree"
@@ -60,6 +61,7 @@ type chg struct {
 }
 
 type env struct {
+	keys    *accountdata.AccountKeys
 	acl     list.AclList
 	creator *objecttree.MockChangeCreator
 	root    *treechangeproto.RawTreeChangeWithId
@@ -75,7 +77,7 @@ func newEnv(f *treesim.Fixture) *env {
 		panic(err)
 	}
 	cr := objecttree.NewMockChangeCreator(nil)
-	return &env{acl: acl, creator: cr, root: cr.CreateRoot("0root", acl.Head().Id)}
+	return &env{keys: f.Keys, acl: acl, creator: cr, root: cr.CreateRoot("0root", acl.Head().Id)}
 }
 
 func (e *env) newTree() (objecttree.ObjectTree, objecttree.Storage) {
@@ -362,6 +364,45 @@ func (e *env) checkDag(c *vk.Ctx, cs []chg, dc dagCase) (out []finding) {
 	}
 	senderHeads := append([]string{}, refT.Heads()...)
 	senderPath, _ := refT.SnapshotPath()
+	// a local change on top of the complete set (it merges all heads): it must be stored after everything else, with
+	// a fresh order id, and present last; done on a second tree fed the same way, so that refT stays as it is
+	if lt, lst := e.newTree(); true {
+		okFeed := true
+		for _, x := range cs {
+			if _, err := addRaw(lt, objecttree.RawChangesPayload{NewHeads: []string{x.Id}, RawChanges: []*treechangeproto.RawTreeChangeWithId{x.raw}, SnapshotPath: x.Path}); err != nil {
+				okFeed = false
+			}
+		}
+		if okFeed {
+			for _, snap := range []bool{false, true} {
+				lt.Lock()
+				res, err := lt.AddContent(ctx, objecttree.SignableChangeContent{Data: []byte("local"), Key: e.keys.SignKey, IsSnapshot: snap, Timestamp: 1700001000, DataType: "verif"})
+				lt.Unlock()
+				c.Count("transitions", 1)
+				if err != nil {
+					add(feeding{}, "local-change-rejected", "AddContent(snapshot=%v) on the complete set failed: %v", snap, err)
+					break
+				}
+				rows := stored(lst)
+				seenOrder := map[string]string{}
+				for i, r := range rows {
+					if other, ok := seenOrder[r.order]; ok {
+						add(feeding{}, "order-id-not-unique:local-change", "after a local change %s and %s share order id %q", other, r.id, r.order)
+					}
+					seenOrder[r.order] = r.id
+					if i > 0 && rows[i-1].order >= r.order {
+						add(feeding{}, "stored-order-ids-not-increasing:local-change", "after a local change %s (%q) is stored after %s (%q)", r.id, r.order, rows[i-1].id, rows[i-1].order)
+					}
+				}
+				if len(res.Added) == 1 && len(rows) > 0 && rows[len(rows)-1].id != res.Added[0].Id {
+					add(feeding{}, "local-change-not-stored-last", "local change %s merges every head but is stored at a position before %s", res.Added[0].Id, rows[len(rows)-1].id)
+				}
+				if p := presented(lt); len(res.Added) == 1 && (len(p) == 0 || p[len(p)-1] != res.Added[0].Id) {
+					add(feeding{}, "local-change-not-presented-last", "local change %s merges every head but the tree presents %v", res.Added[0].Id, p)
+				}
+			}
+		}
+	}
 	// sets reached by several feedings must agree
 	bySet := map[string]string{}
 	var bmu sync.Mutex
